@@ -45,7 +45,10 @@ Roots    == {"in", "sub", "dlua", "file"}       \* input = in | in/sub | in/d.lu
 OutForms == {"none", "same", "exfile", "exdir", "exdirdot", "newdir", "newext"}   \* exdirdot: an EXISTING directory whose name has an extension
 \* "retain": no rules and the default (token-based) generator -- every healthy file is a FIXED POINT of the configuration
 \* (what has to be written is byte-identical to the source; a file already at the destination is still replaced)
-Configs  == {"empty", "default", "rootskip", "rootapply", "luaurc", "luaurcgap", "retain"}
+\* "aliasdup": convert_require from the path mode with the source `@lib` = libD to the path mode with FOUR sources naming that
+\* same directory (`@one`, `@two`, `@six`, `@ten`); every healthy source requires `@lib/m1`.  Any of the four names is a correct
+\* conversion -- but a second run of the same batch, and a run in another order, must write the same bytes (Deterministic).
+Configs  == {"empty", "default", "rootskip", "rootapply", "luaurc", "luaurcgap", "retain", "aliasdup"}
 \* "luaurc" / "luaurcgap": the run converts alias requires with the aliases of the `.luaurc` files of the tree (see
 \* "per-directory context" below); the other configurations never look at a `.luaurc`.
 RcCfgs   == {"luaurc", "luaurcgap"}
@@ -164,7 +167,7 @@ RcOutForms == {"none", "same", "exdir", "newdir"}
 \* (lib/m1 -> lib/m2 -> lib/m3): they are inlined, never copied, never touched
 LibTree(b) == IF b THEN {F(<<"lib", "m1.lua">>, "lib:m1"), F(<<"lib", "m2.lua">>, "lib:m2"), F(<<"lib", "m3.lua">>, "lib:m3")} ELSE {}
 InputTree(c, b) == {F(Src(i), ContentOf(c, i)) : i \in {j \in E : c.st[j] # "absent"}} \cup {F(<<In>> \o r, "text") : r \in NonLuaRel} \cup LibTree(b)
-                     \cup RcTree(c.cfg)
+                     \cup RcTree(c.cfg) \cup (IF c.cfg = "aliasdup" THEN {F(<<"libD", "m1.lua">>, "alias:libD")} ELSE {})
 
 \* what makes a destination unwritable (we run as root: permissions do not help)
 \*   unwparent: the destination's parent directory is a regular FILE   unwdir: the destination is a non-empty DIRECTORY
@@ -225,6 +228,8 @@ WellFormedCase(c) ==
   /\ \A i \in E : c.st[i] \in UnwFault => c.out = "exdir" /\ UnderInput(c, i)
   /\ \A i \in E : c.st[i] = "unwparent" => Len(Dest(c, i)) > Len(OutPath(c)) + 1
   /\ Rc(c) => c.out \in RcOutForms
+  \* the determinism of the conversion is the subject of "aliasdup": no bundling (a "rule" fault configures it)
+  /\ c.cfg = "aliasdup" => c.out \in RcOutForms /\ \A i \in E : c.st[i] # "rule"
   /\ TreeOK(InitialTree(c))
 
 \* ------------------------------------------------------------------ what the property demands
